@@ -286,4 +286,36 @@ def aestheticsDamp (erf : α → α) (flux invvar : List α) : Except String (Li
     | _, _ => .error "ValueError"
   else .ok flux
 
+/-! ## second extension round: the remaining branches of `djs_median(width=)` and of `aesthetics` (new definitions only) -/
+
+/-- the `boundary` keyword of `djs_median` -/
+inductive Boundary where
+  | none | reflect | nearest | wrap | other
+
+/-- `djs_median(array, width=w, boundary=b)` for a 1-D array: `width == 1` returns the input, `'none'` is
+`median(array, width)`, every other value of `boundary` (known or not) is forced to the reflecting branch -/
+def djsMedian1 (med : List α → α) (a : List α) (w : Nat) (b : Boundary) : Except String (List α) :=
+  if w == 1 then .ok a else
+  match b with
+  | .none => medianFilt med a w
+  | _ => djsMedianReflect med a w
+
+/-- `djs_median(array, width=w, boundary=b)` for a 2-D `n0 × n1` array (C-order flattened): `width == 1` returns the
+input, `'none'` is `median(array, width)`, `'reflect'` the reflecting branch; `'nearest'`, `'wrap'` ("not implemented")
+and unknown values raise ValueError -/
+def djsMedian2 (med : List α → α) (n0 n1 : Nat) (a : List α) (w : Nat) (b : Boundary) : Except String (List α) :=
+  if w == 1 then .ok a else
+  match b with
+  | .none => medianFilt2 med n0 n1 a w
+  | .reflect => djsMedianReflect2 med n0 n1 a w
+  | _ => .error "ValueError"
+
+/-- `aesthetics(flux, invvar, method)` with every method of the code: `'damp'` through `aestheticsDamp`
+(`erf` = scipy's error function, parameter), the others through `aesthetics` -/
+def aestheticsFull (erf : α → α) (flux invvar : List α) (method : Method) (goodMean : α) :
+    Except String (List α) :=
+  match method with
+  | .damp => aestheticsDamp erf flux invvar
+  | m => aesthetics flux invvar m goodMean
+
 end PydlVerif.Interp
